@@ -17,7 +17,7 @@ pub const DEF: PropDef = PropDef {
     rule: "case = (program, ordered fact list, layout). Programs: every canonical single rule of the template grammar (families A: 1 premise x head menu; B: every canonical 2-premise body over S{x,y,z,a,w} P{p,q,w,y} O{x,y,z,a,w} with all-variables-exposing conclusions; B': head menu incl. recursive heads on representative 2-premise bodies; C: 3-premise bodies; D: numeric/term filters; E: one safe negated atom) and every ordered pair of the 40-rule core that one stratum of negation can evaluate. Inputs per program: every fact set of <=2 facts over {a,b,c}x(predicates the program can read or write)x{a,b,c}(+\"1\",\"20\" when the program has a numeric filter), reduced by renaming of constants/predicates the program does not mention, in every insertion order; plus 30 curated sets (chains, cycles, diamond, stars, numerics, predicate-as-node) in 3 orders. Every case runs naive, semi-naive, parallel and Boolean-provenance materialisation on a fresh Reasoner and then the same call again. Non-trivial = the least model strictly contains the input (something is derived); distinct = distinct (program, fact set).",
     assumptions: &[
         "oracle = R-datalog (harness/src/reference/datalog.rs): naive least fixpoint, one stratum of safe negation decided at predicate level; programs needing more strata are not generated (counted as excluded)",
-        "a numeric filter applied to a non-numeric binding is left open by the statement: the case is judged only against both readings (type error / read as 0): the store must equal one of them",
+        "a numeric filter applied to a non-numeric binding is left open by the statement: cases whose least model differs between the two readings (type error / read as 0) are counted and not judged",
         "ordering filters between two variables are not generated (FilterCondition documents only =/!= for variable operands)",
         "the returned vector is only required to contain derivable facts (first run) and to be empty (second run); set-equality with model minus input is counted, not judged",
         "rules are added through Reasoner::add_rule (which fills rule_index); facts through add_abox_triple",
@@ -38,10 +38,6 @@ const PREDS: [&str; 3] = ["p", "q", "r"];
 
 // ---------------------------------------------------------------------------------------------
 // program generation
-
-fn is_pred(sy: &Symbols, s: Sym) -> bool {
-    PREDS.contains(&sy.name(s))
-}
 
 /// canonical form under renaming of variables, of the rule constants {a,b,..} and of the predicates
 /// {p,q,r}, each in order of first occurrence (body, negated atoms, filters, heads)
@@ -875,23 +871,22 @@ pub fn run_strategy(rules: &[Rule], facts: &[Fact], facts_first: bool, s: Strat,
 // oracle glue
 
 pub struct Expect {
-    /// admissible least models (one, or two when a numeric filter met a non-numeric binding)
-    pub models: Vec<BTreeSet<Fact>>,
+    pub model: BTreeSet<Fact>,
     pub max_stage: u32,
+    /// a numeric filter met a non-numeric binding and the two readings (type error / read as 0)
+    /// give different models: the statement does not fix the result, the case is not judged
+    pub open: bool,
 }
 
 pub fn expect(rules: &[Rule], facts: &[Fact], sy: &Symbols) -> Result<Expect, String> {
     let m1 = rd::least_model(rules, facts, sy, NonNumeric::TypeError)?;
     let max_stage = m1.values().copied().max().unwrap_or(0);
-    let s1: BTreeSet<Fact> = m1.into_keys().collect();
-    let mut models = vec![s1];
+    let model: BTreeSet<Fact> = m1.into_keys().collect();
+    let mut open = false;
     if rules.iter().any(|r| r.filters.iter().any(|f| matches!(f.rhs, Rhs::Num(_)))) {
-        let s2 = rd::model_set(rules, facts, sy, NonNumeric::Zero)?;
-        if s2 != models[0] {
-            models.push(s2);
-        }
+        open = rd::model_set(rules, facts, sy, NonNumeric::Zero)? != model;
     }
-    Ok(Expect { models, max_stage })
+    Ok(Expect { model, max_stage, open })
 }
 
 fn facts_str(fs: impl IntoIterator<Item = Fact>, sy: &Symbols) -> String {
@@ -932,6 +927,18 @@ fn structural_tags(f: &Features, nrules: usize, strat: Strat) -> Vec<String> {
 fn judge(out: &mut ShardOut, rules: &[Rule], facts: &[Fact], facts_first: bool, strat: Strat, exp: &Expect, feats: &Features, sy: &Symbols, dec: &Decoder) -> bool {
     let obs = run_strategy(rules, facts, facts_first, strat, sy, dec);
     let problems = problems_of(&obs, facts, exp, sy);
+    if let Ok(o) = &obs {
+        // counted, not judged: is the returned vector duplicate-free and equal to what the run added?
+        let input: BTreeSet<Fact> = facts.iter().cloned().collect();
+        let as_set: BTreeSet<Fact> = o.ret1.iter().cloned().collect();
+        if as_set.len() != o.ret1.len() {
+            out.count("returned_vector_with_duplicates", 1);
+        }
+        let added: BTreeSet<Fact> = o.store1.difference(&input).cloned().collect();
+        if as_set != added {
+            out.count("returned_vector_differs_from_added_facts", 1);
+        }
+    }
     if problems.is_empty() {
         return true;
     }
@@ -941,9 +948,29 @@ fn judge(out: &mut ShardOut, rules: &[Rule], facts: &[Fact], facts_first: bool, 
         out.machinery_errors.push(format!("non-deterministic observation for {}", case_json(rules, facts, facts_first, strat, sy)));
         return false;
     }
+    // scope: if the first run's store is wrong, say which ignored component would explain it exactly;
+    // the second-run symptoms of the same execution inherit that scope
+    let mut scope: Vec<String> = Vec::new();
+    if let Ok(o) = &obs {
+        if exp.model == o.store1 {
+            scope.push("first_run_store_correct".into());
+        } else {
+            scope.push("first_run_store_differs".into());
+            // tags: the components of every inclusion-minimal explanation (a failure is in the scope
+            // of "component X ignored" iff some minimal explanation needs X)
+            let expl = diagnose(rules, facts, &o.store1, feats, sy);
+            if expl.is_empty() {
+                scope.push("explained_by=nothing".into());
+            }
+            for set in &expl {
+                scope.extend(set.iter().map(|t| t.tag().to_string()));
+            }
+        }
+    }
     for (symptom, detail, extra_tags) in problems {
         let mut tags = structural_tags(feats, rules.len(), strat);
         tags.extend(extra_tags);
+        tags.extend(scope.iter().cloned());
         out.fail(case_json(rules, facts, facts_first, strat, sy), symptom, detail, tags);
     }
     false
@@ -958,31 +985,25 @@ fn problems_of(obs: &Result<Obs, String>, facts: &[Fact], exp: &Expect, sy: &Sym
         }
         Ok(o) => o,
     };
-    let input: BTreeSet<Fact> = facts.iter().cloned().collect();
-    let model = match exp.models.iter().find(|m| **m == obs.store1) {
-        Some(m) => m,
-        None => {
-            // report against the closest admissible model
-            let m = exp.models.iter().min_by_key(|m| m.symmetric_difference(&obs.store1).count()).unwrap();
-            let missing: Vec<Fact> = m.difference(&obs.store1).cloned().collect();
-            let extra: Vec<Fact> = obs.store1.difference(m).cloned().collect();
-            let diff = match (missing.is_empty(), extra.is_empty()) {
-                (false, true) => "diff=missing_only",
-                (true, false) => "diff=extra_only",
-                _ => "diff=missing_and_extra",
-            };
-            let mut tags = vec![diff.to_string()];
-            if extra.iter().any(|f| f.iter().any(|s| *s == FOREIGN)) {
-                tags.push("foreign_term_in_store".into());
-            }
-            v.push((
-                "store_differs_from_least_model",
-                format!("after the first run the store lacks {} and has underivable {}; least model = {}", facts_str(missing, sy), facts_str(extra, sy), facts_str(m.iter().cloned(), sy)),
-                tags,
-            ));
-            m
+    let model = &exp.model;
+    if *model != obs.store1 {
+        let missing: Vec<Fact> = model.difference(&obs.store1).cloned().collect();
+        let extra: Vec<Fact> = obs.store1.difference(model).cloned().collect();
+        let diff = match (missing.is_empty(), extra.is_empty()) {
+            (false, true) => "diff=missing_only",
+            (true, false) => "diff=extra_only",
+            _ => "diff=missing_and_extra",
+        };
+        let mut tags = vec![diff.to_string()];
+        if extra.iter().any(|f| f.iter().any(|s| *s == FOREIGN)) {
+            tags.push("foreign_term_in_store".into());
         }
-    };
+        v.push((
+            "store_differs_from_least_model",
+            format!("after the first run the store lacks {} and has underivable {}; least model = {}", facts_str(missing, sy), facts_str(extra, sy), facts_str(model.iter().cloned(), sy)),
+            tags,
+        ));
+    }
     if v.is_empty() {
         // "every derived fact has a derivation": whatever the call reports as derived must be in the model
         let bogus: Vec<Fact> = obs.ret1.iter().filter(|f| !model.contains(*f)).cloned().collect();
@@ -990,7 +1011,6 @@ fn problems_of(obs: &Result<Obs, String>, facts: &[Fact], exp: &Expect, sy: &Sym
             v.push(("reported_fact_without_derivation", format!("first run returned {} which are not in the least model", facts_str(bogus, sy)), vec![]));
         }
     }
-    let _ = input;
     if !obs.ret2.is_empty() {
         v.push(("second_run_derives", format!("second run returned {}", facts_str(obs.ret2.iter().cloned(), sy)), vec![]));
     }
@@ -1000,6 +1020,140 @@ fn problems_of(obs: &Result<Obs, String>, facts: &[Fact], exp: &Expect, sy: &Sym
         v.push(("second_run_changes_store", format!("second run added {} and removed {}", facts_str(added, sy), facts_str(removed, sy)), vec![]));
     }
     v
+}
+
+// ---------------------------------------------------------------------------------------------
+// diagnosis of a wrong store: which syntactic component of the program would the run have to
+// ignore for the reference to reproduce exactly the observed store? (generic hypotheses, computed
+// from the case and the observation; used only to scope failure tags narrowly)
+
+#[derive(Clone, Copy, PartialEq, Eq, Debug, PartialOrd, Ord)]
+pub enum Toggle {
+    NegIgnored,
+    FiltersIgnored,
+    Rules3PlusDropped,
+    ConstPredTrigger,
+    SingleNegPass,
+}
+impl Toggle {
+    pub fn tag(&self) -> &'static str {
+        match self {
+            Toggle::NegIgnored => "explained_by=negated_atoms_ignored",
+            Toggle::FiltersIgnored => "explained_by=filters_ignored",
+            Toggle::Rules3PlusDropped => "explained_by=rules_with_3plus_premises_dropped",
+            Toggle::ConstPredTrigger => "explained_by=rules_triggered_only_by_new_facts_with_a_constant_premise_predicate",
+            Toggle::SingleNegPass => "explained_by=single_pass_over_negated_rules_after_positive_fixpoint",
+        }
+    }
+}
+
+/// the store the reference produces when the components named in `set` are ignored
+pub fn emulate(rules: &[Rule], facts: &[Fact], set: &[Toggle], sy: &Symbols, nn: NonNumeric) -> Option<BTreeSet<Fact>> {
+    let has = |t: Toggle| set.contains(&t);
+    if has(Toggle::NegIgnored) && has(Toggle::SingleNegPass) {
+        return None;
+    }
+    let mut rs: Vec<Rule> = Vec::new();
+    for r in rules {
+        if has(Toggle::Rules3PlusDropped) && r.pos.len() >= 3 {
+            continue;
+        }
+        let mut r = r.clone();
+        if has(Toggle::FiltersIgnored) {
+            r.filters.clear();
+        }
+        if has(Toggle::NegIgnored) {
+            r.neg.clear();
+        }
+        rs.push(r);
+    }
+    // semi-naive rounds in which a rule is looked at only for new facts whose predicate is a
+    // constant predicate of one of its premises (positive programs only)
+    let trigger_eval = |rs: &[Rule], start: &BTreeSet<Fact>| -> BTreeSet<Fact> {
+        let mut all = start.clone();
+        let mut delta = start.clone();
+        loop {
+            let mut new: BTreeSet<Fact> = BTreeSet::new();
+            for r in rs {
+                let cps: Vec<Sym> = r.pos.iter().filter_map(|a| if let T::C(c) = a[1] { Some(c) } else { None }).collect();
+                for inst in rd::instances(r, &all, sy, nn) {
+                    if inst.body.iter().any(|f| delta.contains(f) && cps.contains(&f[1])) {
+                        for h in inst.heads {
+                            if !all.contains(&h) {
+                                new.insert(h);
+                            }
+                        }
+                    }
+                }
+            }
+            if new.is_empty() {
+                return all;
+            }
+            all.extend(new.iter().cloned());
+            delta = new;
+        }
+    };
+    let input: BTreeSet<Fact> = facts.iter().cloned().collect();
+    if has(Toggle::SingleNegPass) {
+        let pos: Vec<Rule> = rs.iter().filter(|r| r.neg.is_empty()).cloned().collect();
+        let m0 = if has(Toggle::ConstPredTrigger) { trigger_eval(&pos, &input) } else { rd::model_set(&pos, facts, sy, nn).ok()? };
+        let mut m = m0.clone();
+        for r in rs.iter().filter(|r| !r.neg.is_empty()) {
+            for inst in rd::instances(r, &m0, sy, nn) {
+                if inst.neg.iter().all(|g| !m0.contains(g)) {
+                    m.extend(inst.heads);
+                }
+            }
+        }
+        return Some(m);
+    }
+    if has(Toggle::ConstPredTrigger) {
+        if rs.iter().any(|r| !r.neg.is_empty()) {
+            return None;
+        }
+        return Some(trigger_eval(&rs, &input));
+    }
+    rd::model_set(&rs, facts, sy, nn).ok()
+}
+
+/// every inclusion-minimal set of ignored components that reproduces `observed` exactly (empty = no explanation)
+pub fn diagnose(rules: &[Rule], facts: &[Fact], observed: &BTreeSet<Fact>, feats: &Features, sy: &Symbols) -> Vec<Vec<Toggle>> {
+    let mut applicable: Vec<Toggle> = Vec::new();
+    if feats.has_negation {
+        applicable.push(Toggle::NegIgnored);
+        applicable.push(Toggle::SingleNegPass);
+    }
+    if feats.has_filter {
+        applicable.push(Toggle::FiltersIgnored);
+    }
+    if feats.has_3plus {
+        applicable.push(Toggle::Rules3PlusDropped);
+    }
+    if feats.has_varpred_premise {
+        applicable.push(Toggle::ConstPredTrigger);
+    }
+    let n = applicable.len();
+    let mut masks: Vec<u32> = (1..(1u32 << n)).collect();
+    masks.sort_by_key(|m| (m.count_ones(), *m));
+    let mut found: Vec<u32> = Vec::new();
+    for m in masks {
+        if found.iter().any(|f| m & f == *f) {
+            continue; // a subset already explains it
+        }
+        let set: Vec<Toggle> = (0..n).filter(|i| m & (1 << i) != 0).map(|i| applicable[i]).collect();
+        // cases in which the two readings of a filter on a non-numeric binding differ are not judged,
+        // but a program with some filters ignored may still meet one: try both
+        for nn in [NonNumeric::TypeError, NonNumeric::Zero] {
+            if emulate(rules, facts, &set, sy, nn).as_ref() == Some(observed) {
+                found.push(m);
+                break;
+            }
+            if !feats.has_numeric_filter || set.contains(&Toggle::FiltersIgnored) {
+                break;
+            }
+        }
+    }
+    found.iter().map(|m| (0..n).filter(|i| m & (1 << i) != 0).map(|i| applicable[i]).collect()).collect()
 }
 
 // ---------------------------------------------------------------------------------------------
@@ -1045,6 +1199,10 @@ fn run(ctx: &Ctx) -> ShardOut {
                     continue;
                 }
             };
+            if exp.open {
+                out.count("cases_not_judged_filter_on_non_numeric_binding", 1);
+                continue;
+            }
             let input: BTreeSet<Fact> = facts.iter().cloned().collect();
             for &ff in layouts {
                 out.evaluations += 1;
@@ -1058,7 +1216,7 @@ fn run(ctx: &Ctx) -> ShardOut {
                 }
             }
             // vacuity counters
-            let m = &exp.models[0];
+            let m = &exp.model;
             let derives = m.len() > input.len();
             if derives {
                 let mut fs: Vec<Fact> = input.iter().cloned().collect();
@@ -1077,9 +1235,6 @@ fn run(ctx: &Ctx) -> ShardOut {
                 if derives && exp.max_stage >= 2 {
                     out.count("cases_recursive_program_multi_round", 1);
                 }
-            }
-            if exp.models.len() > 1 {
-                out.count("cases_filter_on_non_numeric_two_readings", 1);
             }
             if feats.has_negation {
                 out.count("cases_program_with_negation", 1);
@@ -1144,6 +1299,11 @@ fn replay(_ctx: &Ctx, case: &Value) -> ShardOut {
             return out;
         }
     };
+    if exp.open {
+        out.count("cases_not_judged_filter_on_non_numeric_binding", 1);
+        out.evaluations += 1;
+        return out;
+    }
     let feats = features(&rules);
     for s in strats {
         out.evaluations += 1;
